@@ -25,6 +25,7 @@ FMAX = float(np.finfo(np.float64).max)
 COMP_VALUES = [0.0, 1.0, -1.0, 2.0, -2.0, 3.0, -3.0, 1e-8, -1e-8, 1e8, -1e8, 1e-200, -1e-200, 1e200, -1e200, DEN, -DEN, 1e-310, -1e-310,
                FMAX, -FMAX, 2.0**1023, float(np.finfo(np.float64).tiny), 5e-324]
 TOL = 1e-12
+FAR = np.array([2.0**40, -(2.0**39), 2.0**38])
 
 
 def cases(thorough):
@@ -59,7 +60,9 @@ def cases(thorough):
                 for v1 in sub:
                     for v2 in sub[: (7 if thorough else 4)]:
                         for masses in ((1.0, 1.0), (1.0, 2.0)):
-                            for win in ("dx8", "dx4.4-origin", "none", "dx4.4-origin-in-m", "dx-in-m-origin-in-km"):
+                            for win in ("dx8", "dx4.4-origin", "none", "dx4.4-origin-in-m", "dx-in-m-origin-in-km", "dx4.4-origin-far"):
+                                if win == "dx4.4-origin-far" and (masses == (1.0, 2.0) or v2 not in sub[:2]) and not thorough:
+                                    continue
                                 if win.endswith(("-m", "-km")) and (masses == (1.0, 2.0) or v2 != sub[0]) and not thorough:
                                     continue
                                 if not thorough and win == "none" and masses == (1.0, 2.0):
@@ -274,6 +277,17 @@ def run_case(acc, idx, c):
                     dx, origin, R, o = 8.0 * osyris.units("cm"), None, 4.0, np.zeros(3)
                 elif c["window"] == "dx4.4-origin":
                     dx, R, o = 4.4 * osyris.units("cm"), 2.2, np.array([1.0, 0.0, 0.0])
+                    origin = V_(*o, unit="cm")
+                elif c["window"] == "dx4.4-origin-far":
+                    # the same configuration moved far away from the coordinate origin (|origin| / window ~ 1e11; all numbers exact)
+                    dx, R = 4.4 * osyris.units("cm"), 2.2
+                    o = np.array([1.0, 0.0, 0.0]) + FAR
+                    pos = pos + FAR
+                    data = osyris.Datagroup({
+                        "position": V_(pos[:, 0].copy(), pos[:, 1].copy(), pos[:, 2].copy(), unit="cm"),
+                        "velocity": V_(vel[:, 0].copy(), vel[:, 1].copy(), vel[:, 2].copy(), unit="cm/s"),
+                        "mass": A_(mass.copy(), unit="g"),
+                    })
                     origin = V_(*o, unit="cm")
                 elif c["window"] == "dx4.4-origin-in-m":
                     # the same window, the origin written in another unit than the positions
